@@ -6,7 +6,7 @@ value-type reference semantics with no lifetime error and exactly-once destructi
 histories, for a lifetime-instrumented payload (event-exact), std::string, std::vector<int>, an
 over-aligned struct and int, in a normal and in an odd-offset placement, under ASan+UBSan; plus the
 layout facts alignof/sizeof(Optional<T>) against the model's layout function."""
-import itertools, json, os, re, sys
+import itertools, json, os, re, sys, time, traceback
 import vlib
 sys.path.insert(0, os.path.dirname(os.path.abspath(__file__)))
 import factgen  # noqa: E402
@@ -452,6 +452,51 @@ def load_corpus(ctx):
 
 
 # ------------------------------------------------------------------ judging one implementation run
+
+# ------------------------------------------------------------------ robustness: isolated stages, oracle-only mode, budgets
+BUDGET_S = 225            # wall-clock budget of the whole run; stages starting later are skipped (recorded as broken)
+VIOLATION_CAP = 14        # concrete inputs shrunk and reported per run; further mismatching labels are only named
+NOMODEL_CAP = 8000        # cases per list judged by the python oracle alone when the executable model is missing
+REPO_SRC_WIDE = ["rkcommon/utility/demangle.cpp", "rkcommon/common.cpp", "rkcommon/os/library.cpp"]
+
+
+def over_budget(ctx):
+    return time.time() - ctx.t0 > BUDGET_S
+
+
+def stage(ctx, name, fn):
+    """run one stage of the check; an exception or an exhausted budget is recorded, never propagated"""
+    if over_budget(ctx):
+        ctx.broken.append("time budget of %d s exhausted: stage '%s' skipped" % (BUDGET_S, name))
+        return None
+    try:
+        return fn()
+    except Exception as ex:
+        tb = traceback.format_exc().strip().split("\n")
+        ctx.broken.append("stage '%s' raised %r (%s)" % (name, ex, tb[-3].strip() if len(tb) >= 3 else ""))
+        ctx.log("stage '%s' raised:\n%s" % (name, "\n".join(tb[-8:])))
+        return None
+
+
+def diff(ctx, cases, model, impls, model_args, full, mvz):
+    """model-vs-code comparison; without an executable model the implementation's own output is judged by the independent
+    python oracle (on a capped prefix of the case list), so a behavioural change still yields a concrete input"""
+    if model:
+        return vlib.differential(ctx, cases, model, impls, model_args=model_args)
+    sub = cases[:NOMODEL_CAP]
+    mism, crashes = [], {}
+    for label, exe, args in impls:
+        rc, ilines, ierr = vlib.run_lines(ctx, exe, list(args), sub)
+        if rc != 0:
+            crashes[label] = (rc, ierr[-3000:], len(ilines))
+        for i, c in enumerate(sub):
+            il = ilines[i] if i < len(ilines) else "<no output: harness died>"
+            ops = c.split()[1:]
+            ok = (check_O(ops, il, full, mvz) if c[0] == "O" else check_A(ops, il))[0]
+            if not ok:
+                mism.append((i, label, il, "<no executable model: judged by the python oracle>"))
+    return mism, crashes, []
+
 def judge(ctx, what, cases, exe, hargs, full, mvz, mism, crashes, label, seen_budget=2):
     """Turn mismatches / crashes of one harness run into violations (oracle fails on the implementation's own
     output -> shrink -> concrete history) or broken correspondences (oracle satisfied)."""
@@ -493,6 +538,11 @@ def judge(ctx, what, cases, exe, hargs, full, mvz, mism, crashes, label, seen_bu
         return True
 
     done = 0
+    if (label in crashes or any(m[1] == label for m in mism)) and (len(ctx.violations) >= VIOLATION_CAP or over_budget(ctx)):
+        note = "further failing configuration not shrunk (cap of %d reported inputs / time budget reached): %s" % (VIOLATION_CAP, label)
+        if note not in ctx.broken:
+            ctx.broken.append(note)
+        return
     if label in crashes:
         rc, err, n = crashes[label]
         if n < len(cases):
@@ -779,23 +829,52 @@ def inventory_check(ctx, facts, counters, facts_ok):
     ctx.cov["inventory_size"] = len(inv)
 
 
+def build_harnesses(ctx):
+    """the two placements of the harness; when the full harness does not compile against the tree, fall back to builds
+    without the getEnvVar / Any parts (and once to a wider list of repo sources) so that the remaining histories still run"""
+    attempts = [([], REPO_SRC, []), ([], REPO_SRC_WIDE, ["-ldl"]), (["-DC09_NO_ENV"], REPO_SRC, []), (["-DC09_NO_ANY"], [], []),
+                (["-DC09_NO_ANY", "-DC09_NO_ENV"], [], [])]
+    for n, (fl, srcs, libs) in enumerate(attempts):
+        exes = ctx.cxx_many([
+            dict(sources=["harness.cpp"], out="harness", repo_sources=srcs, sanitize="asan", flags=fl, libs=libs),
+            dict(sources=["harness.cpp"], out="harness_odd", repo_sources=srcs, sanitize="asan", flags=fl + ["-DC09_PREFIXED"], libs=libs),
+        ])
+        if exes[0] or exes[1]:
+            if n:
+                ctx.broken.append("harness: the full build failed against this tree; running the fallback build %s (sources %s)"
+                                  % (" ".join(fl) or "(all parts)", ",".join(srcs) or "none"))
+            return exes[0] or exes[1], exes[1] or exes[0], set(fl)
+    return None, None, set()
+
+
 def run(ctx):
+    """never raises: bin/vcheck calls ctx.finish() afterwards, which writes the evidence file"""
+    try:
+        _run(ctx)
+    except Exception as ex:
+        tb = traceback.format_exc().strip().split("\n")
+        ctx.broken.append("props/C09/check.py raised %r (%s)" % (ex, tb[-3].strip() if len(tb) >= 3 else ""))
+        ctx.log("check raised:\n" + "\n".join(tb[-10:]))
+
+
+def _run(ctx):
     if getattr(ctx, "replay", None):
         return replay(ctx)
-    facts = regen_facts(ctx)
-    res = ctx.coq_check(("Properties.v", "PropertiesFacts.v", "PropertiesFactsSem.v"))
-    facts_report(ctx, facts, res)
+    facts = regen_facts(ctx)                       # (catches its own failures: unknown facts, obligations break)
+    res = stage(ctx, "Coq build", lambda: ctx.coq_check(("Properties.v", "PropertiesFacts.v", "PropertiesFactsSem.v"))) or {}
+    stage(ctx, "source-derived facts report", lambda: facts_report(ctx, facts, res))
     facts_ok = all(res.get(t) for t in FACT_THMS) and bool(res.get("facts_any_no_move_members"))
     counters = {}
     src_facts = facts
-    model = ctx.extract(snippets=["conv_N.ml"])
-    exes = ctx.cxx_many([
-        dict(sources=["harness.cpp"], out="harness", repo_sources=REPO_SRC, sanitize="asan"),
-        dict(sources=["harness.cpp"], out="harness_odd", repo_sources=REPO_SRC, sanitize="asan", flags=["-DC09_PREFIXED"]),
-    ])
-    exe, exe_odd = exes
-    if not model or not exe or not exe_odd:
+    model = stage(ctx, "model extraction", lambda: ctx.extract(snippets=["conv_N.ml"]))
+    if not model:
+        ctx.broken.append("no executable model (Coq build / extraction failed): the harness output is judged by the independent python "
+                          "oracle alone, on the first %d cases of each list" % NOMODEL_CAP)
+    exe, exe_odd, hflags = stage(ctx, "harness build", lambda: build_harnesses(ctx)) or (None, None, set())
+    if not exe:
+        ctx.broken.append("no harness could be built against this tree (all fallback builds failed): nothing was executed")
         return
+    hist, paths = {}, {}
     r = ctx.rng("cases")
     corpus = load_corpus(ctx)
     o_rand = [gen_O(r, 30) for _ in range(ctx.pick(2500, 25000))]
@@ -820,183 +899,206 @@ def run(ctx):
     ctx.log("cases: Optional %d (random %d, exhaustive %d), Any %d (random %d, exhaustive %d)"
             % (len(o_cases), len(o_rand), len(o_exh), len(a_cases), len(a_rand), len(a_exh)))
 
-    # ---- layout facts: model's layout function vs the compiler's numbers for the working tree
-    rc, out, err = ctx.run_exe(exe, ["facts"])
-    facts = []
-    for ln in out.splitlines():
-        m = re.match(r"(\w+) alignT=(\d+) sizeT=(\d+) align=(\d+) size=(\d+) prefixed_offset=(\d+)", ln)
-        if m:
-            facts.append((m.group(1),) + tuple(int(x) for x in m.groups()[1:]))
-    if rc != 0 or len(facts) < 10:
-        ctx.broken.append("harness facts failed rc=%d" % rc)
-    rc, mout, _ = ctx.run_exe(model, ["fixed"], stdin="".join("L %d %d\n" % (f[1], f[2]) for f in facts))
-    mfacts = mout.splitlines()
-    lay = {}
-    bad = []
-    for f, ml in zip(facts, mfacts):
-        name, aT, sT, al, sz, off = f
-        il = "align=%d size=%d prefixed_offset=%d" % (al, sz, off)
-        lay[name] = {"alignof_T": aT, "sizeof_T": sT, "alignof_Optional": al, "sizeof_Optional": sz, "offset_after_char": off}
-        ctx.count(1)
-        if al % aT != 0 or off % aT != 0:
-            bad.append({"payload_type": name, "alignof_T": aT, "observed": il, "required_by_model": ml})
-        elif il != ml:
-            ctx.broken.append("layout correspondence for Optional<%s>: compiler %s, model %s (alignment requirement itself holds)" % (name, il, ml))
-    if bad:
-        b = bad[0]
-        ctx.violation("storage of Optional<T> is not suitably aligned for %d of %d payload types, e.g. T=%s: alignof(T)=%d but %s "
-                      "(payload of struct{char; Optional<T>;} at offset %s)" % (len(bad), len(facts), b["payload_type"], b["alignof_T"],
-                                                                              b["observed"], b["observed"].split("=")[-1]),
-                      {"case": "alignof(Optional<%s>) %% alignof(%s) == 0" % (b["payload_type"], b["payload_type"]),
-                       "observed": b["observed"], "required": b["required_by_model"] + " (alignof(Optional<T>) a multiple of alignof(T))",
-                       "all_failing_types": bad})
-    ctx.cov["layout_facts"] = lay
+    def st_layout():
+        # ---- layout facts: model's layout function vs the compiler's numbers for the working tree
+        rc, out, err = ctx.run_exe(exe, ["facts"])
+        facts = []
+        for ln in out.splitlines():
+            m = re.match(r"(\w+) alignT=(\d+) sizeT=(\d+) align=(\d+) size=(\d+) prefixed_offset=(\d+)", ln)
+            if m:
+                facts.append((m.group(1),) + tuple(int(x) for x in m.groups()[1:]))
+        if rc != 0 or len(facts) < 10:
+            ctx.broken.append("harness facts failed rc=%d" % rc)
+        if model:
+            rc, mout, _ = ctx.run_exe(model, ["fixed"], stdin="".join("L %d %d\n" % (f[1], f[2]) for f in facts))
+            mfacts = mout.splitlines()
+        else:
+            mfacts = ["align=%d size=%d prefixed_offset=%d" % (f[3], f[4], f[5]) for f in facts]     # no model: only the requirement itself
+        lay = {}
+        bad = []
+        for f, ml in zip(facts, mfacts):
+            name, aT, sT, al, sz, off = f
+            il = "align=%d size=%d prefixed_offset=%d" % (al, sz, off)
+            lay[name] = {"alignof_T": aT, "sizeof_T": sT, "alignof_Optional": al, "sizeof_Optional": sz, "offset_after_char": off}
+            ctx.count(1)
+            if al % aT != 0 or off % aT != 0:
+                bad.append({"payload_type": name, "alignof_T": aT, "observed": il, "required_by_model": ml})
+            elif il != ml:
+                ctx.broken.append("layout correspondence for Optional<%s>: compiler %s, model %s (alignment requirement itself holds)" % (name, il, ml))
+        if bad:
+            b = bad[0]
+            ctx.violation("storage of Optional<T> is not suitably aligned for %d of %d payload types, e.g. T=%s: alignof(T)=%d but %s "
+                          "(payload of struct{char; Optional<T>;} at offset %s)" % (len(bad), len(facts), b["payload_type"], b["alignof_T"],
+                                                                                  b["observed"], b["observed"].split("=")[-1]),
+                          {"case": "alignof(Optional<%s>) %% alignof(%s) == 0" % (b["payload_type"], b["payload_type"]),
+                           "observed": b["observed"], "required": b["required_by_model"] + " (alignof(Optional<T>) a multiple of alignof(T))",
+                           "all_failing_types": bad})
+        ctx.cov["layout_facts"] = lay
 
-    # ---- Optional histories
-    hist, paths = {}, {}
-    for c in o_cases:
-        ops = c.split()[1:]
-        for t in ops:
-            k = "O:" + t.split(":")[0]
-            hist[k] = hist.get(k, 0) + 1
-        st = {}
-        oracle_O(ops, True, st)
-        for k, n in st.items():
-            paths["%s from %s into %s" % k] = paths.get("%s from %s into %s" % k, 0) + n
-        # non-trivial: at least one well-formed wrapper-to-wrapper transfer and one observation
-        if st and any(t.split(":")[0] in ("val", "hv", "vo") + CMPS for t in ops):
-            ctx.nontriv(c)
-    for c in a_cases:
-        ops = c.split()[1:]
-        for t in ops:
-            k = "A:" + t.split(":")[0]
-            hist[k] = hist.get(k, 0) + 1
-        if any(t.split(":")[0] in ("cc", "ac") for t in ops) and any(t.split(":")[0] in ("get", "eq", "ne", "set") for t in ops):
-            ctx.nontriv(c)
-    missing = [("%s from %s" % (c, s)) for c in TRANSFER for s in ("engaged", "empty")
-               if not any(k.startswith("%s from %s " % (c, s)) for k in paths)]
-    if missing:
-        ctx.broken.append("generator coverage: transfer paths never exercised: " + ", ".join(missing))
-    ctx.cov["op_histogram"] = hist
-    ctx.cov["transfer_paths"] = paths
-    vstat = {}
-    for c in val_cases:
-        oracle_O(c.split()[1:], True, vstat)
-        t = [x.split(":")[0] for x in c.split()[1:]]
-        if "vu" in t and "vr" in t or "adr" in t or "edr" in t:
-            ctx.nontriv(c)
-    ctx.cov["value_category_uses"] = {"%s %s" % (k[0], k[1]): n for k, n in vstat.items() if k[0].startswith("vu")}
-    missing_v = ["vu%d cat%d" % (m, c_) for m in range(4) for c_ in range(4) if ("vu%d" % m, "cat%d" % c_, "") not in vstat]
-    if missing_v:
-        ctx.broken.append("generator coverage: value member x category never exercised: " + ", ".join(missing_v))
-
-    by_mode = {}
-    for fam, form, mz in FAMS:
-        by_mode.setdefault((form, mz, PK.get(fam, "pk=full")), []).append(fam)
-    for (form, mz, pk), fams in by_mode.items():
-        impls = []
-        for fam in fams:
-            impls.append(("Optional<%s>" % fam, exe, [fam]))
-            impls.append(("Optional<%s>@odd-offset" % fam, exe_odd, [fam]))
-        mism, crashes, mlines = vlib.differential(ctx, o_cases, model, impls, model_args=[form, mz, "fixed", pk])
-        tally(counters, o_cases, len(impls), "O")
-        # value operations with an observable argument in every value category (aligned placement)
-        vimpls = [("Optional<%s>/value-categories" % fam, exe, [fam]) for fam in fams]
-        # (payloads whose move is a copy cannot show a wrongly moved-from argument: they get the random part only)
-        vcs = val_cases if mz == "mvz1" or ctx.thorough() else val_cases[:ctx.pick(1500, 12000)]
-        vm, vc, _ = vlib.differential(ctx, vcs, model, vimpls, model_args=[form, mz, "fixed", pk])
-        tally(counters, vcs, len(vimpls), "O")
-        ctx.count(len(vcs) * len(vimpls))
-        for label, ex, args in vimpls:
-            judge(ctx, "Optional history", vcs, ex, args, ("full" if pk == "pk=full" else "events") if form == "full" else False,
-                  mz == "mvz1", vm, vc, label)
-        ctx.count(len(o_cases) * len(impls))
-        ctx.cov["mismatches_%s_%s_%s" % (form, mz, pk[3:])] = len(mism)
-        for label, ex, args in impls:
-            judge(ctx, "Optional history", o_cases, ex, args, ("full" if pk == "pk=full" else "events") if form == "full" else False,
-                  mz == "mvz1", mism, crashes, label)
-        if form == "full" and pk == "pk=full":
-            for c in o_rand[:2]:
-                ctx.sample({"case": c, "model_and_impl": mlines[o_cases.index(c)][:400] if mlines else None})
-
-    # ---- Any histories
-    impls = [("Any", exe, ["trk"])]
-    mism, crashes, mlines = vlib.differential(ctx, a_cases, model, impls, model_args=["fixed"])
-    tally(counters, a_cases, 1, "A")
-    ast_ = {}
-    for c in a_cases:
-        oracle_A(c.split()[1:], ast_)
-    for k, v in ast_.items():
-        counters["A:" + k] = v
-    ctx.count(len(a_cases))
-    ctx.cov["mismatches_any"] = len(mism)
-
-    judge(ctx, "Any history", a_cases, exe, ["trk"], False, True, mism, crashes, "Any")
-    for c in a_rand[:1]:
-        ctx.sample({"case": c, "model_and_impl": mlines[a_cases.index(c)][:400] if mlines else None})
-
-    # ---- Optional histories whose values are distinguishable but compare equal (shadows / signed zeros)
-    for fam, extra in (("ks", ks_extra), ("dbl", dbl_extra)):
-        impls = [("Optional<%s>+shadow" % fam, exe, [fam]), ("Optional<%s>+shadow@odd-offset" % fam, exe_odd, [fam])]
-        mism, crashes, mlines = vlib.differential(ctx, extra, model, impls, model_args=["plain", "mvz0", "fixed"])
-        tally(counters, extra, len(impls), "O")
-        ctx.count(len(extra) * len(impls))
-        ctx.cov["mismatches_%s_shadow" % fam] = len(mism)
-        for c in extra[:len(o_rand_raw)]:
+    stage(ctx, 'layout facts', st_layout)
+    def st_stats():
+        # ---- Optional histories: statistics of the generated cases
+        for c in o_cases:
+            ops = c.split()[1:]
+            for t in ops:
+                k = "O:" + t.split(":")[0]
+                hist[k] = hist.get(k, 0) + 1
             st = {}
-            oracle_O(c.split()[1:], False, st)
-            if st and any(t.split(":")[0] in CMPS for t in c.split()[1:]):
+            oracle_O(ops, True, st)
+            for k, n in st.items():
+                paths["%s from %s into %s" % k] = paths.get("%s from %s into %s" % k, 0) + n
+            # non-trivial: at least one well-formed wrapper-to-wrapper transfer and one observation
+            if st and any(t.split(":")[0] in ("val", "hv", "vo") + CMPS for t in ops):
                 ctx.nontriv(c)
-        for label, ex, args in impls:
-            judge(ctx, "Optional history", extra, ex, args, False, False, mism, crashes, label)
-    ctx.sample({"case": ks_extra[0], "note": "payload codes are 4*key+shadow; ks compares keys only"})
-
-    # ---- move-only payload kind (copy constructor / copy assignment deleted), event-exact
-    rm = ctx.rng("mov")
-    mcases = ["O " + " ".join(t) for n in range(1, 4) for t in itertools.product(ALPHA_MOV, repeat=n)] + \
-        ["O " + " ".join(rm.choice(ALPHA_MOV) for _ in range(rm.randint(4, 14))) for _ in range(ctx.pick(1500, 12000))]
-    impls = [("Optional<move-only>", exe, ["mov"]), ("Optional<move-only>@odd-offset", exe_odd, ["mov"])]
-    mism, crashes, mlines = vlib.differential(ctx, mcases, model, impls, model_args=["full", "mvz1", "fixed", "pk=full"])
-    tally(counters, mcases, len(impls), "O")
-    ctx.count(len(mcases) * len(impls))
-    ctx.cov["mismatches_move_only"] = len(mism)
-    for label, ex, args in impls:
-        judge(ctx, "Optional history", mcases, ex, args, "full", True, mism, crashes, label)
-    ctx.cov["case_mix"] = dict(ctx.cov.get("case_mix", {}), move_only_histories=len(mcases))
-
-    # ---- getEnvVar.h: Optionals produced from the process environment, then used in the ongoing history
-    re_ = ctx.rng("env")
-    env_total = 0
-    for fam, kind, mz in (("int", 0, "mvz0"), ("dbl", 1, "mvz0"), ("str", 2, "mvz1")):
-        ecases = [recode(gen_O(re_, 30, env=kind), lambda v: 4 * v) for _ in range(ctx.pick(1500, 12000))] + \
-            ["O " + " ".join(t) for n in range(1, 4) for t in itertools.product(alpha_env(kind), repeat=n)]
-        env_total += len(ecases)
-        impls = [("getEnvVar<%s>" % {0: "int", 1: "float", 2: "string"}[kind], exe, [fam]),
-                 ("getEnvVar<%s>@odd-offset" % {0: "int", 1: "float", 2: "string"}[kind], exe_odd, [fam])]
-        mism, crashes, mlines = vlib.differential(ctx, ecases, model, impls, model_args=["plain", mz, "fixed"])
-        tally(counters, ecases, len(impls), "O")
-        ctx.count(len(ecases) * len(impls))
-        ctx.cov["mismatches_env_%s" % fam] = len(mism)
-        for c in ecases:
+        for c in a_cases:
+            ops = c.split()[1:]
+            for t in ops:
+                k = "A:" + t.split(":")[0]
+                hist[k] = hist.get(k, 0) + 1
+            if any(t.split(":")[0] in ("cc", "ac") for t in ops) and any(t.split(":")[0] in ("get", "eq", "ne", "set") for t in ops):
+                ctx.nontriv(c)
+        missing = [("%s from %s" % (c, s)) for c in TRANSFER for s in ("engaged", "empty")
+                   if not any(k.startswith("%s from %s " % (c, s)) for k in paths)]
+        if missing:
+            ctx.broken.append("generator coverage: transfer paths never exercised: " + ", ".join(missing))
+        ctx.cov["op_histogram"] = hist
+        ctx.cov["transfer_paths"] = paths
+        vstat = {}
+        for c in val_cases:
+            oracle_O(c.split()[1:], True, vstat)
             t = [x.split(":")[0] for x in c.split()[1:]]
-            hist["O:es"] = hist.get("O:es", 0) + t.count("es")
-            hist["O:eu"] = hist.get("O:eu", 0) + t.count("eu")
-            hist["O:gv"] = hist.get("O:gv", 0) + t.count("gv")
-            # non-trivial: a variable was set, read through getEnvVar and the result observed
-            if "es" in t and "gv" in t and any(x in t for x in ("val", "hv", "vo") + CMPS):
+            if "vu" in t and "vr" in t or "adr" in t or "edr" in t:
                 ctx.nontriv(c)
-        for label, ex, args in impls:
-            judge(ctx, "getEnvVar history", ecases, ex, args, False, mz == "mvz1", mism, crashes, label)
-        if kind == 0:
-            ctx.sample({"case": ecases[0], "model_and_impl": mlines[0][:300] if mlines else None})
-    ctx.cov["case_mix"] = dict(ctx.cov.get("case_mix", {}), getenv_histories=env_total)
+        ctx.cov["value_category_uses"] = {"%s %s" % (k[0], k[1]): n for k, n in vstat.items() if k[0].startswith("vu")}
+        missing_v = ["vu%d cat%d" % (m, c_) for m in range(4) for c_ in range(4) if ("vu%d" % m, "cat%d" % c_, "") not in vstat]
+        if missing_v:
+            ctx.broken.append("generator coverage: value member x category never exercised: " + ", ".join(missing_v))
 
+    stage(ctx, 'case statistics', st_stats)
+    def st_optional():
+        by_mode = {}
+        for fam, form, mz in FAMS:
+            by_mode.setdefault((form, mz, PK.get(fam, "pk=full")), []).append(fam)
+        for (form, mz, pk), fams in by_mode.items():
+            fullf = ("full" if pk == "pk=full" else "events") if form == "full" else False
+            impls = []
+            for fam in fams:
+                impls.append(("Optional<%s>" % fam, exe, [fam]))
+                impls.append(("Optional<%s>@odd-offset" % fam, exe_odd, [fam]))
+            mism, crashes, mlines = diff(ctx, o_cases, model, impls, [form, mz, "fixed", pk], fullf, mz == "mvz1")
+            tally(counters, o_cases, len(impls), "O")
+            # value operations with an observable argument in every value category (aligned placement)
+            vimpls = [("Optional<%s>/value-categories" % fam, exe, [fam]) for fam in fams]
+            # (payloads whose move is a copy cannot show a wrongly moved-from argument: they get the random part only)
+            vcs = val_cases if mz == "mvz1" or ctx.thorough() else val_cases[:ctx.pick(1500, 12000)]
+            vm, vc, _ = diff(ctx, vcs, model, vimpls, [form, mz, "fixed", pk], fullf, mz == "mvz1")
+            tally(counters, vcs, len(vimpls), "O")
+            ctx.count(len(vcs) * len(vimpls))
+            for label, ex, args in vimpls:
+                judge(ctx, "Optional history", vcs, ex, args, ("full" if pk == "pk=full" else "events") if form == "full" else False,
+                      mz == "mvz1", vm, vc, label)
+            ctx.count(len(o_cases) * len(impls))
+            ctx.cov["mismatches_%s_%s_%s" % (form, mz, pk[3:])] = len(mism)
+            for label, ex, args in impls:
+                judge(ctx, "Optional history", o_cases, ex, args, ("full" if pk == "pk=full" else "events") if form == "full" else False,
+                      mz == "mvz1", mism, crashes, label)
+            if form == "full" and pk == "pk=full":
+                for c in o_rand[:2]:
+                    ctx.sample({"case": c, "model_and_impl": mlines[o_cases.index(c)][:400] if mlines else None})
+
+    stage(ctx, 'Optional histories', st_optional)
+    def st_any():
+        # ---- Any histories
+        impls = [("Any", exe, ["trk"])]
+        mism, crashes, mlines = diff(ctx, a_cases, model, impls, ["fixed"], False, True)
+        tally(counters, a_cases, 1, "A")
+        ast_ = {}
+        for c in a_cases:
+            oracle_A(c.split()[1:], ast_)
+        for k, v in ast_.items():
+            counters["A:" + k] = v
+        ctx.count(len(a_cases))
+        ctx.cov["mismatches_any"] = len(mism)
+
+        judge(ctx, "Any history", a_cases, exe, ["trk"], False, True, mism, crashes, "Any")
+        for c in a_rand[:1]:
+            ctx.sample({"case": c, "model_and_impl": mlines[a_cases.index(c)][:400] if mlines else None})
+
+    if "-DC09_NO_ANY" in hflags:
+        ctx.broken.append('Any histories not run: the harness was built without the Any part (fallback build)')
+    else:
+        stage(ctx, 'Any histories', st_any)
+    def st_shadow():
+        # ---- Optional histories whose values are distinguishable but compare equal (shadows / signed zeros)
+        for fam, extra in (("ks", ks_extra), ("dbl", dbl_extra)):
+            impls = [("Optional<%s>+shadow" % fam, exe, [fam]), ("Optional<%s>+shadow@odd-offset" % fam, exe_odd, [fam])]
+            mism, crashes, mlines = diff(ctx, extra, model, impls, ["plain", "mvz0", "fixed"], False, False)
+            tally(counters, extra, len(impls), "O")
+            ctx.count(len(extra) * len(impls))
+            ctx.cov["mismatches_%s_shadow" % fam] = len(mism)
+            for c in extra[:len(o_rand_raw)]:
+                st = {}
+                oracle_O(c.split()[1:], False, st)
+                if st and any(t.split(":")[0] in CMPS for t in c.split()[1:]):
+                    ctx.nontriv(c)
+            for label, ex, args in impls:
+                judge(ctx, "Optional history", extra, ex, args, False, False, mism, crashes, label)
+        ctx.sample({"case": ks_extra[0], "note": "payload codes are 4*key+shadow; ks compares keys only"})
+
+    stage(ctx, 'shadowed payload histories', st_shadow)
+    def st_mov():
+        # ---- move-only payload kind (copy constructor / copy assignment deleted), event-exact
+        rm = ctx.rng("mov")
+        mcases = ["O " + " ".join(t) for n in range(1, 4) for t in itertools.product(ALPHA_MOV, repeat=n)] + \
+            ["O " + " ".join(rm.choice(ALPHA_MOV) for _ in range(rm.randint(4, 14))) for _ in range(ctx.pick(1500, 12000))]
+        impls = [("Optional<move-only>", exe, ["mov"]), ("Optional<move-only>@odd-offset", exe_odd, ["mov"])]
+        mism, crashes, mlines = diff(ctx, mcases, model, impls, ["full", "mvz1", "fixed", "pk=full"], "full", True)
+        tally(counters, mcases, len(impls), "O")
+        ctx.count(len(mcases) * len(impls))
+        ctx.cov["mismatches_move_only"] = len(mism)
+        for label, ex, args in impls:
+            judge(ctx, "Optional history", mcases, ex, args, "full", True, mism, crashes, label)
+        ctx.cov["case_mix"] = dict(ctx.cov.get("case_mix", {}), move_only_histories=len(mcases))
+
+    stage(ctx, 'move-only payload histories', st_mov)
+    def st_env():
+        # ---- getEnvVar.h: Optionals produced from the process environment, then used in the ongoing history
+        re_ = ctx.rng("env")
+        env_total = 0
+        for fam, kind, mz in (("int", 0, "mvz0"), ("dbl", 1, "mvz0"), ("str", 2, "mvz1")):
+            ecases = [recode(gen_O(re_, 30, env=kind), lambda v: 4 * v) for _ in range(ctx.pick(1500, 12000))] + \
+                ["O " + " ".join(t) for n in range(1, 4) for t in itertools.product(alpha_env(kind), repeat=n)]
+            env_total += len(ecases)
+            impls = [("getEnvVar<%s>" % {0: "int", 1: "float", 2: "string"}[kind], exe, [fam]),
+                     ("getEnvVar<%s>@odd-offset" % {0: "int", 1: "float", 2: "string"}[kind], exe_odd, [fam])]
+            mism, crashes, mlines = diff(ctx, ecases, model, impls, ["plain", mz, "fixed"], False, mz == "mvz1")
+            tally(counters, ecases, len(impls), "O")
+            ctx.count(len(ecases) * len(impls))
+            ctx.cov["mismatches_env_%s" % fam] = len(mism)
+            for c in ecases:
+                t = [x.split(":")[0] for x in c.split()[1:]]
+                hist["O:es"] = hist.get("O:es", 0) + t.count("es")
+                hist["O:eu"] = hist.get("O:eu", 0) + t.count("eu")
+                hist["O:gv"] = hist.get("O:gv", 0) + t.count("gv")
+                # non-trivial: a variable was set, read through getEnvVar and the result observed
+                if "es" in t and "gv" in t and any(x in t for x in ("val", "hv", "vo") + CMPS):
+                    ctx.nontriv(c)
+            for label, ex, args in impls:
+                judge(ctx, "getEnvVar history", ecases, ex, args, False, mz == "mvz1", mism, crashes, label)
+            if kind == 0:
+                ctx.sample({"case": ecases[0], "model_and_impl": mlines[0][:300] if mlines else None})
+        ctx.cov["case_mix"] = dict(ctx.cov.get("case_mix", {}), getenv_histories=env_total)
+
+    if "-DC09_NO_ENV" in hflags:
+        ctx.broken.append('getEnvVar histories not run: the harness was built without the getEnvVar part (fallback build)')
+    else:
+        stage(ctx, 'getEnvVar histories', st_env)
     ctx.cov["case_mix"] = dict(ctx.cov.get("case_mix", {})); ctx.cov["case_mix"].update({"corpus": len(corpus), "optional_random": len(o_rand), "optional_exhaustive": len(o_exh),
                            "optional_shadowed_ks": len(ks_extra), "optional_signed_zero_dbl": len(dbl_extra),
                            "any_random": len(a_rand), "any_exhaustive": len(a_exh), "payload_families": [f[0] for f in FAMS],
                            "placements": ["64-byte aligned slot", "struct{char; Optional<T>} (odd offset when alignment is 1)"]})
     # ---- inventory closure: AST declarations vs COVER, with the execution counts of this run
-    inventory_check(ctx, src_facts, counters, facts_ok)
+    stage(ctx, "inventory closure", lambda: inventory_check(ctx, src_facts, counters, facts_ok))
     ctx.rule = ("Optional: random histories (length<=30, 4 wrapper slots, both payload types T and convertible U, sources biased to be empty "
                 "half of the time) + all histories of length<=%d over a %d-op alphabet + all continuations of length<=%d (%d-op alphabet) of "
                 "a 3-wrapper preamble; getEnvVar<int|float|string>: random histories mixing setenv/unsetenv/getEnvVar (the empty string, 30+ character strings, decimal spellings with blanks/sign/trailing junk, -0.0, a name never set) with the Optional operations + all histories of length<=3 over a 21-op alphabet per kind; each on 9 payload families x 2 placements (three instrumented kinds along the trait lattice, event-exact against the model's observed trace: everything user-provided; trivially destructible with user-provided copy/move and a self-pointer; destructor-only with trivial copies; plus a move-only payload on the members that do not copy) under ASan+UBSan (payload codes are 4*key+shadow; the {key,shadow} struct compared on key and double/float with +0.0/-0.0 additionally get histories with shadowed codes, full stored state printed after every step). Any: random histories (length<=30, 8 "
@@ -1016,7 +1118,7 @@ def run(ctx):
                         "observed by the instrumented payload in the harness, not proved",
                         "alignment is a compile-time fact read from the compiler for 15 payload types and cross-checked by UBSan at odd offsets"]
     if ctx.thorough():
-        ctx.coq_thorough_chk(["C09.Properties", "C09.PropertiesFacts", "C09.PropertiesFactsSem"])
+        stage(ctx, "coqchk", lambda: ctx.coq_thorough_chk(["C09.Properties", "C09.PropertiesFacts", "C09.PropertiesFactsSem"]))
 
 
 def replay(ctx):
